@@ -41,7 +41,7 @@ def U(name, typ, ts, tt, dt=5.0):
 
 PROBLEMS = {
     1: dict(streams=[S("A", "H1", 200, 80, 1200), S("A", "C1", 60, 150, 900), S("B", "H2", 180, 40, 700, 10), S("B", "C2", 30, 120, 990, 2.5)],
-            utilities=[U("LPS", "Both", 140, 140, 12.0), U("CW", "Cold", 10, 20, 12.0)], options={"DT_CONT": 12.0}),     # a non-default option
+            utilities=[U("LPS", "Both", 140, 140, 12.0), U("CW", "Cold", 10, 20, 12.0)], options={"DT_CONT": 12.0, "REFRIGERANTS": "ammonia,propane"}),     # non-default options (a number and a list-valued one)
     2: dict(streams=[S("Only", "H1", 250, 50, 400), S("Only", "H2", 120, 30, 90, 0.0)], utilities=[], options={}),
     3: dict(streams=[S("Plant/U1", "F1", 20, 180, 3200), S("Plant/U1", "F2", 150, 150, 250), S("Plant/U2", "P1", 250, 40, 3150, 7.5),
                      S("Yard", "P2", 200, 80, 1800)],
